@@ -18,15 +18,15 @@ var propC06 = &modelProp{
 	profile: func() *Profile {
 		return &Profile{
 			Property: "C06", MaxOps: pick(12, 28),
-			W: map[string]int{"insert": 8, "update": 8, "resave": 1, "delete": 2, "many": 4, "bulk": 2, "insertBad": 3, "updateBad": 3, "manyBad": 3, "insertOther": 1, "query": 2, "reopen": 1},
+			W:          map[string]int{"insert": 8, "update": 8, "resave": 1, "delete": 2, "many": 4, "bulk": 2, "insertBad": 3, "updateBad": 3, "manyBad": 3, "insertOther": 1, "query": 2, "reopen": 1},
 			AllowCache: true, AllowCompress: true, AllowAsync: true,
 			MinUnique: 1, MaxUnique: 3, MaxIndexed: 2, CasePaths: 1,
 			ConsPaths: []string{"S", "I64", "F64", "U8", "Pt.F", "In.F", "S2", "F32", "Emb.EN"},
-			TinyBias: 70, BigBias: 8, HookBias: 35, RichShape: 5, MaxLeaves: 1,
+			TinyBias:  70, BigBias: 8, HookBias: 35, RichShape: 5, MaxLeaves: 1,
 		}
 	},
 	opts: RunOpts{SweepLevel: 1, SweepEveryOp: true, Control: true, Walk: true, FocusPaths: []string{"S", "F64"}},
-	nt: func(e *Env) bool { return e.flags["rejected-update"] > 0 },
+	nt:   func(e *Env) bool { return e.flags["rejected-update"] > 0 },
 	rule: "histories in which most writes are rejected: Validate failures (data-driven hooks), uniqueness conflicts on the 1st/2nd/3rd unique field (tiny value domains), batch members of another type, an insert into a collection that was never created, values that cannot be serialised (NaN, +Inf, -Inf in float fields, indexed / unique or not) in single and batch calls, with cache and async writes on and off. Oracle: the error class is the model's; after EVERY call - so in particular after every rejected one - the complete observation (Count, All, Get/GetByUUID/Exist of every uuid incl. cached reads, AssignIndex, search sweep, Control, and in sync mode the directory through the independent walker) equals the unchanged model. Non-trivial: >=1 rejected call that targets an already stored object (rejected update). Distinct by program hash.",
 }
 
@@ -39,7 +39,7 @@ func TestC06(t *testing.T) { propC06.test(t) }
 func c06FaultProfile() *Profile {
 	return &Profile{
 		Property: "C06", MaxOps: pick(6, 10),
-		W: map[string]int{"insert": 8, "update": 5, "delete": 2, "many": 2},
+		W:          map[string]int{"insert": 8, "update": 5, "delete": 2, "many": 2},
 		AllowCache: true, AllowCompress: true, ForceSync: true, AllowLower: true,
 		MinIndexed: 1, MaxIndexed: 3, MaxUnique: 1,
 		TinyBias: 60, BigBias: 8, HookBias: 0, RichShape: 5, MaxLeaves: 1, NoCopyItems: true,
